@@ -82,3 +82,40 @@ package encoding
 //@ func ZigzagDecode
 //@   pure
 //@   axiom forall(d, int64, ZigzagDecode(ZigzagEncode(d)) == d) by verifLemma_C10_zigzag
+
+//@ func dipos
+//@   decreases j
+
+// The []int codec is proved for element values within +-2^62 (index and count
+// lists; every difference then fits int64 without wrapping). For larger
+// magnitudes the Go code relies on wrap-around of both the subtraction and the
+// addition; that case is not covered here.
+//@ func MarshalDeltaCodedInts
+//@   requires forall(j, 0, len(vs), -(1<<62) <= vs[j] && vs[j] < 1<<62, vs[j])
+//@   requires forall(j, 0, len(vs), 0 <= dipos(vs, j) && dipos(vs, j) <= len(buffer) && dipos(vs, j) + uvlen(diE(vs, j)) <= len(buffer), dipos(vs, j))
+//@   modifies buffer
+//@   loop 1 modifies buffer
+//@   loop 1 invariant 0 <= rangeindex+1 && rangeindex+1 <= len(vs)
+//@   loop 1 invariant i == dipos(vs, rangeindex+1)
+//@   loop 1 invariant last == ite(rangeindex >= 0, vs[rangeindex], 0)
+//@   loop 1 invariant forall(j, 0, rangeindex+1, diAt(buffer, vs, j) && dipos(vs, j) + uvlen(diE(vs, j)) <= i, dipos(vs, j))
+//@   ensures result == dipos(vs, len(vs))
+//@   ensures forall(j, 0, len(vs), diAt(buffer, vs, j), dipos(vs, j))
+
+//@ func UnmarshalDeltaCodedInts
+//@   ghost w []int
+//@   requires n == len(w) && base(vs) != base(w)
+//@   requires forall(j, 0, n, -(1<<62) <= w[j] && w[j] < 1<<62, w[j])
+//@   requires forall(j, 0, n, diAt(buffer, w, j) && 0 <= dipos(w, j) && dipos(w, j) <= len(buffer) && dipos(w, j) + uvlen(diE(w, j)) <= len(buffer), dipos(w, j))
+//@   loop 1 modifies vs
+//@   loop 1 invariant 0 <= j && j <= n && i == dipos(w, j) && len(vs) == j
+//@   loop 1 invariant last == ite(j > 0, w[j-1], 0)
+//@   loop 1 invariant base(vs) != base(w)
+//@   loop 1 invariant forall(k, 0, j, vs[k] == w[k])
+//@   ensures len(result0) == n && result1 == dipos(w, n)
+//@   ensures forall(k, 0, n, result0[k] == w[k])
+
+//@ func verifLemma_C09_delta_ints
+//@   requires forall(j, 0, len(vs), -(1<<62) <= vs[j] && vs[j] < 1<<62, vs[j])
+//@   requires forall(j, 0, len(vs), 0 <= dipos(vs, j) && dipos(vs, j) <= len(buffer) && dipos(vs, j) + uvlen(diE(vs, j)) <= len(buffer), dipos(vs, j))
+//@   falsify len(buffer) >= 10*len(vs)
